@@ -531,7 +531,10 @@ pub fn gen_form(r: &mut Rng, nonce: u64, steps: u32, step_ms: u64) -> EchoReq {
 pub fn gen_raw(r: &mut Rng, nonce: u64, steps: u32, step_ms: u64, stream: bool) -> EchoReq {
     let n = *r.pick(&[0usize, 1, 2, 100, 1000, 4000]);
     let n = if n > 2 { r.usize_in(0, n) } else { n };
-    let body = r.bytes(n);
+    // a third of the bodies is text, so that UntypedBody::as_str() has
+    // something to succeed on
+    let body = if r.chance(1, 3) { gen_string(r, n.min(300)).into_bytes() } else { r.bytes(n) };
+    let text = std::str::from_utf8(&body).ok().map(|s| s.to_string());
     let hexb = crate::api::echo::hex(&body);
     let framing = gen_framing(r, body.len());
     let ctype = match r.below(3) {
@@ -565,7 +568,7 @@ pub fn gen_raw(r: &mut Rng, nonce: u64, steps: u32, step_ms: u64, stream: bool) 
             ctype_name: "content-type",
             body: Some(body),
             framing,
-            canon: json!({"path": {"s": ps}, "body": hexb}),
+            canon: json!({"path": {"s": ps}, "body": hexb, "text": text}),
             boundary_style: 0,
         }
     }
